@@ -3,6 +3,7 @@ package props
 import (
 	"fmt"
 	"os"
+	"path/filepath"
 	"strconv"
 	"strings"
 	"testing"
@@ -299,6 +300,20 @@ func parseFuzzFile(path string) ([]byte, error) {
 	return []byte(s), nil
 }
 
+// addFixtures seeds a fuzz target with the repository's own sample programs.
+func addFixtures(f *testing.F) {
+	dir := os.Getenv("VERIF_REPO")
+	if dir == "" {
+		dir = "/repo"
+	}
+	files, _ := filepath.Glob(filepath.Join(dir, "testdata", "*.js"))
+	for _, fn := range files {
+		if b, err := os.ReadFile(fn); err == nil && len(b) < 1<<14 {
+			f.Add(b)
+		}
+	}
+}
+
 func FuzzC10(f *testing.F) {
 	for _, w := range c10Witnesses {
 		f.Add(w.Src)
@@ -306,6 +321,7 @@ func FuzzC10(f *testing.F) {
 	for _, lx := range c10Lexemes {
 		f.Add([]byte(lx + " " + lx))
 	}
+	addFixtures(f)
 	known := loadKnown("C10")
 	rec := evid.New("C10")
 	f.Fuzz(func(t *testing.T, data []byte) {
